@@ -15,7 +15,7 @@ LEVEL = "exploration"
 RULE = ("base cases: one pool instance, 2-6 fully consumed calls mixing imap / imap_unordered, empty inputs in between, "
         "different chunk sizes and input forms; FactoryFunctorPool with quota 1-5 and call lengths of m*quota*workers "
         "chunks and +-1 (retirements exactly at the end of a call), FunctorPool without quota, bounded result queues "
-        "(incl. maxsize 1 around empty calls), join_timeout shorter than a slow end() of retiring workers. Each base case: dry run, one run per (executed statement, occurrence) "
+        "(incl. maxsize 1 around empty calls), join_timeout shorter than a slow end() of retiring workers, one long-lived pool (320 replacements under RLIMIT_NOFILE=160) and one pool whose factory needs 1.4 s per replacement. Each base case: dry run, one run per (executed statement, occurrence) "
         "with a 120 ms delay, random 2-3 delay combinations, forced GIL hand-offs. Oracles per run: per-call value "
         "oracle, exception per call, quiescence oracle. distinct_nontrivial = distinct (base case, "
         "thread-switch-pair set, plan size).")
@@ -43,6 +43,15 @@ def gen_base(rng, tier, index):
                 "calls": [{"ordered": True, "n": 6, "chunk": 1, "form": "list", "pause_after": pause},
                           {"ordered": False, "n": 7, "chunk": 2, "form": "gen", "pause_after": 0.5},
                           {"ordered": True, "n": 3, "chunk": 1, "form": "list"}]}
+    if index == 9 or (tier == "thorough" and index % 40 == 9):
+        # a long-lived pool: hundreds of retirements and replacements under a tight descriptor limit
+        return {"pool": "factory", "workers": 2, "quota": 1, "wq": 1.0, "rq": None, "no_sweep": True, "limit_factor": 3,
+                "nofile": 160, "calls": [{"ordered": ci % 2 == 0, "n": 80, "chunk": 1, "form": "list"} for ci in range(4)]}
+    if index == 14 or (tier == "thorough" and index % 40 == 14):
+        # an expensive worker constructor: while the replacement is being created the pool has no live worker
+        return {"pool": "factory", "workers": 1, "quota": 1, "wq": 1.0, "rq": None, "no_sweep": True, "limit_factor": 3,
+                "slow_create": 1.4, "calls": [{"ordered": True, "n": 3, "chunk": 1, "form": "list"},
+                                              {"ordered": False, "n": 2, "chunk": 1, "form": "gen"}]}
     if index % 8 == 5:
         # many short calls, each with fewer chunks than the quota, together far more than workers*quota: retirements are
         # spread over calls and fall at call boundaries
